@@ -35,13 +35,18 @@ See(p, obs) == seen \o [i \in 1..Len(obs) |-> [p |-> p, k |-> obs[i].k, v |-> ob
 
 PInt(x, d) == IF x = "0" THEN 0 ELSE IF x = "1" THEN 1 ELSE IF x = "2" THEN 2 ELSE IF x = "3" THEN 3 ELSE d
 Par(t, k, d) == IF k \in DOMAIN t.params THEN t.params[k] ELSE d
-ScenOf(t) == [subs |-> Counts(Par(t, "subs", "11")), workers |-> PInt(Par(t, "workers", "1"), 1), stop |-> Par(t, "stop", "stop")]
+\* follow-up jobs (chain = 1) and "SoftStop and nothing else" are not modelled by ThreadPool.tla: such executions are
+\* judged by the abstract monitors only (drift from the first line, no note); `seen' starts with a scenario marker
+Modelled(t) == Par(t, "chain", "0") = "0" /\ Par(t, "stop", "stop") # "softonly"
+Seed(t) == IF Modelled(t) THEN <<>> ELSE <<[p |-> "root", k |-> "scenario", v |-> Par(t, "stop", "stop") \o ":" \o Par(t, "chain", "0")]>>
+ScenOf(t) == [subs |-> Counts(Par(t, "subs", "11")), workers |-> PInt(Par(t, "workers", "1"), 1),
+              stop |-> IF Par(t, "stop", "stop") = "softonly" THEN "soft" ELSE Par(t, "stop", "stop")]
 
 TInit ==
   /\ TLCSet(1, {}) /\ TLCSet(2, 1) /\ TLCSet(3, {})
   /\ T[1].e = "begin"
   /\ InitScen(ScenOf(T[1]))
-  /\ l = 2 /\ seen = <<>> /\ drift = FALSE /\ omap = <<>>
+  /\ l = 2 /\ seen = Seed(T[1]) /\ drift = ~Modelled(T[1]) /\ omap = <<>>
 
 Conform(t) ==
   /\ Step
@@ -66,7 +71,7 @@ TRobs ==
 TDrift ==
   /\ l <= Len(T) /\ T[l].e \in {"op", "robs"}
   /\ drift \/ (T[l].e = "op" /\ ~ENABLED Conform(T[l])) \/ (T[l].e = "robs" /\ ~ENABLED (RootWait /\ ev'.obs = T[l].obs))
-  /\ drift' = TRUE /\ NoteDrift(l)
+  /\ drift' = TRUE /\ (IF Len(seen) > 0 /\ seen[1].k = "scenario" THEN TRUE ELSE NoteDrift(l))
   /\ seen' = See(IF T[l].e = "op" THEN T[l].p ELSE "root", T[l].obs)
   /\ UNCHANGED <<vars, omap>>
   /\ l' = l + 1 /\ Progress(l')
@@ -81,7 +86,7 @@ TEnd ==
 TBegin ==
   /\ l <= Len(T) /\ T[l].e = "begin"
   /\ ResetScen(ScenOf(T[l]))
-  /\ seen' = <<>> /\ drift' = FALSE /\ omap' = <<>>
+  /\ seen' = Seed(T[l]) /\ drift' = ~Modelled(T[l]) /\ omap' = <<>>
   /\ l' = l + 1 /\ Progress(l')
 
 TNext == TOp \/ TRobs \/ TDrift \/ TEnd \/ TBegin
@@ -99,6 +104,12 @@ AbsEndOK(t) ==
   /\ t.status = "ok"
   /\ \A j \in AllJobs : Count2(ToString(j)) = 1
 AbsEnd == (l > 1 /\ l - 1 <= Len(T) /\ T[l - 1].e = "end") => AbsEndOK(T[l - 1])
+\* SoftStop stops only when no job is queued or running: while a job runs the pool accepts its follow-up, so under
+\* "SoftStop and nothing else" a job that was Called never has its follow-up Dropped
+Has(k, j) == \E n \in 1..Len(seen) : seen[n].k = k /\ seen[n].v = ToString(j)
+AbsSoftStopKeepsFollowUps ==
+  (Len(seen) > 0 /\ seen[1].k = "scenario" /\ seen[1].v = "softonly:1") =>
+     \A j \in JobIds : ~(Has("call", j) /\ Has("drop", j + 1) /\ (j + 1) \in JobIds /\ (j + 1) \div 10 = j \div 10)
 AbsNoUseAfterReturn == \A n \in 1..Len(seen) : seen[n].k # "use_after_return"
 
 Accepted ==
